@@ -246,8 +246,17 @@ class QvmCpu:
         self.stmt_starts = None
         debug_info = getattr(module, 'debug_info', None)
         if debug_info is not None:
+            # (the record of a routine begins at its FRAME instruction,
+            # which is executed while the caller's frame is current,
+            # in the middle of the calling statement: not the start
+            # of a statement of the frame that would take the note)
+            routine_starts = {
+                routine.start_offset
+                for routine in debug_info.routines.values()
+            }
             self.stmt_starts = frozenset(
-                stmt.start_offset for stmt in debug_info.stmts)
+                stmt.start_offset for stmt in debug_info.stmts
+                if stmt.start_offset not in routine_starts)
 
         self.received_keyboard_interrupt = False
         signal.signal(signal.SIGINT, self.signal_handler)
